@@ -111,6 +111,15 @@ def _recursion_args(H, fn, name, base_kwargs, must_match):
             want = base_kwargs[key]
             got_ok = all((c.get(key, defaults.get(key)) is want) or (c.get(key, defaults.get(key)) == want) for c in calls)
             it.ctx.oblige(f"{name}.collection.same_{key}", z3.BoolVal(bool(got_ok)), "post", f"each group is filtered with the caller's {key}")
+        if "ntr_pad" in defaults and "ntr_tap" in defaults:
+            # lateral apodisation of a group: never wider than the mirrored padding it is given (the taper must fall on padding rows, not on the
+            # group's own traces); ntr_tap=None means "as wide as the padding"
+            def eff(c):
+                pad = c.get("ntr_pad", defaults["ntr_pad"])
+                tap = c.get("ntr_tap", defaults["ntr_tap"])
+                return pad, (pad if tap is None else tap)
+            okt = all(isinstance(eff(c)[0], (int, float)) and isinstance(eff(c)[1], (int, float)) and eff(c)[1] <= eff(c)[0] for c in calls)
+            it.ctx.oblige(f"{name}.collection.taper_within_padding", z3.BoolVal(bool(okt)), "post", "no group is tapered on its own traces: the taper handed to a group is not wider than its padding")
     S.explore(body)
 
 
@@ -118,7 +127,7 @@ def _recursion_args(H, fn, name, base_kwargs, must_match):
          clause="filtering with channel groups equals filtering each group on its own with the same filter and gain-control settings")
 def h_rec(H):
     bk = {"N": 3, "Wn": 0.05, "btype": "highpass"}
-    _recursion_args(H, V.kfilt, "kfilt", {"lagc": 150, "butter_kwargs": bk}, ["lagc", "butter_kwargs"])
+    _recursion_args(H, V.kfilt, "kfilt", {"lagc": 150, "butter_kwargs": bk, "ntr_pad": 60}, ["lagc", "butter_kwargs"])
     kf = {"bounds": [0.05, 0.1], "btype": "highpass"}
     _recursion_args(H, V.fk, "fk", {"si": 0.001, "dx": 2, "vbounds": [200, 300], "btype": "lowpass", "ntr_pad": 3, "ntr_tap": 2, "lagc": 0.25, "kfilt": kf},
                     ["si", "dx", "vbounds", "btype", "ntr_pad", "ntr_tap", "lagc", "kfilt"])
